@@ -33,8 +33,8 @@ KNOWN_D4 = "C03-D4-zero-duration-at-shared-close-open-instant"
 class Ev:
     def __init__(self, name: str):
         self.idx = z3.Int(f"{name}_idx")
-        self.ts = z3.Int(f"{name}_ts")
-        self.dur = z3.Int(f"{name}_dur")
+        self.ts = z3.Real(f"{name}_ts")  # instants and durations are reals: Kineto writes fractional microseconds
+        self.dur = z3.Real(f"{name}_dur")
         self.name = name
 
     @property
@@ -563,7 +563,7 @@ def array_vcs_new() -> List[core.VC]:
     fq = [f.fq]
     ex = pyvc.Exec(consts=consts, name=name)
     fv.install(ex)
-    cols = {"index": (z3.IntSort(), False, "int"), "ts": (z3.IntSort(), False, "int"), "dur": (z3.IntSort(), False, "int"),
+    cols = {"index": (z3.IntSort(), False, "int"), "ts": (z3.IntSort(), False, "int"), "dur": (z3.RealSort(), False, "float"),
             "stream": (z3.IntSort(), False, "int"), "index_correlation": (z3.IntSort(), False, "int")}
     df = fv.SymDF.base("thread", cols)
     captured: Dict[str, Any] = {}
@@ -646,7 +646,7 @@ def array_vcs_old() -> List[core.VC]:
     fq = [f.fq]
     ex = pyvc.Exec(consts=consts, name=name)
     fv.install(ex)
-    cols = {"index": (z3.IntSort(), False, "int"), "ts": (z3.IntSort(), False, "int"), "dur": (z3.IntSort(), False, "int"),
+    cols = {"index": (z3.IntSort(), False, "int"), "ts": (z3.IntSort(), False, "int"), "dur": (z3.RealSort(), False, "float"),  # durations may be fractional (C03-D26)
             "stream": (z3.IntSort(), False, "int"), "index_correlation": (z3.IntSort(), False, "int")}
     df = fv.SymDF.base("thread", cols)
     devcls = pyvc.EnumCls("DeviceType", {"UNKNOWN": 0, "CPU": 1, "GPU": 2})
@@ -831,9 +831,13 @@ def _chunk_eval(args):
         fam = (first,) + rest
         if not is_laminar(list(fam)):
             continue
-        for idmode in (0, 1):
-            ids = list(range(len(fam))) if idmode == 0 else [10 + 3 * (len(fam) - 1 - i) for i in range(len(fam))]
-            events = [(ids[i], 100 + s, e - s) for i, (s, e) in enumerate(fam)]  # unit grid: durations 0, 1, 2, ... occur
+        half_ok = all(s % 2 == 0 for s, _ in fam)  # the same family read on a half-unit grid: whole timestamps, durations 0, 0.5, 1, 1.5, ... (C03-D26)
+        for idmode in (0, 1) + ((2,) if half_ok else ()):
+            ids = list(range(len(fam))) if idmode != 1 else [10 + 3 * (len(fam) - 1 - i) for i in range(len(fam))]
+            if idmode == 2:
+                events = [(ids[i], 100 + s // 2, (e - s) / 2) for i, (s, e) in enumerate(fam)]
+            else:
+                events = [(ids[i], 100 + s, e - s) for i, (s, e) in enumerate(fam)]  # unit grid: durations 0, 1, 2, ... occur
             known = in_known_class_d4(events)
             for which, runner in (("trace_call_stack", run_new_builder), ("call_stack", run_old_builder)):
                 out["n"] += 1
@@ -863,7 +867,7 @@ def bounded_builders(ctx) -> Dict[str, Any]:
         for first in spans:
             tasks.append((G, k, first, None))
     res = {"evaluations": 0, "distinct": 0, "failures": [], "known_class_failures": 0,
-           "scope": f"all laminar families of k spans on a G-point grid (ordered = file order; two id assignments), (G,k) in {scopes}; both real builders vs spec oracle",
+           "scope": f"all laminar families of k spans on a G-point grid (ordered = file order; two id assignments; families whose starts are all even also on the half-unit grid, i.e. with fractional durations), (G,k) in {scopes}; both real builders vs spec oracle",
            "samples": []}
     with mp.get_context("fork").Pool(min(ctx.procs, 16)) as pool:
         for o in pool.imap_unordered(_chunk_eval, tasks, chunksize=1):
@@ -906,13 +910,13 @@ def translator_differential(ctx) -> Dict[str, Any]:
     for _ in range(n):
         vals = {}
         for e in (p, q):
-            vals[e] = dict(idx=rng.randint(0, 3), ts=rng.randint(0, 4), dur=rng.choice([0, 0, 1, 2, 3]), open=rng.random() < 0.5)
+            vals[e] = dict(idx=rng.randint(0, 3), ts=rng.randint(0, 4), dur=rng.choice([0, 0, 1, 2, 3, 0.5, 1.5]), open=rng.random() < 0.5)
         if vals[p]["idx"] == vals[q]["idx"]:
             vals[q].update(ts=vals[p]["ts"], dur=vals[p]["dur"], open=not vals[p]["open"])
         subst = []
         for e in (p, q):
             v = vals[e]
-            subst += [(e.ev.idx, z3.IntVal(v["idx"])), (e.ev.ts, z3.IntVal(v["ts"])), (e.ev.dur, z3.IntVal(v["dur"])), (e.open, z3.BoolVal(v["open"]))]
+            subst += [(e.ev.idx, z3.IntVal(v["idx"])), (e.ev.ts, z3.RealVal(v["ts"])), (e.ev.dur, z3.RealVal(str(v["dur"]))), (e.open, z3.BoolVal(v["open"]))]
         key = tuple(sorted((str(a), str(b)) for a, b in subst))
         distinct.add(key)
 
@@ -931,11 +935,19 @@ def translator_differential(ctx) -> Dict[str, Any]:
             if got != want and len(fails) < 3:
                 fails.append({"what": f"translator_differential.{which}", "input": {"p": vals[p], "q": vals[q]}, "observed": {"z3_term": got}, "expected": {"cpython": want},
                               "how": "the z3 term produced by PyVC disagrees with the real function: the ENGINE is wrong, not the repository"})
-    return {"evaluations": 2 * n, "distinct": len(distinct), "failures": fails, "scope": f"{n} random endpoint pairs (ids 0-3, times 0-4, durations 0-3) per comparator", "samples": [{"pairs": n}],
+    return {"evaluations": 2 * n, "distinct": len(distinct), "failures": fails, "scope": f"{n} random endpoint pairs (ids 0-3, times 0-4, durations 0-3 and 0.5, 1.5) per comparator", "samples": [{"pairs": n}],
             "engine_check": True}
 
 
 # ---------------------------------------------------------------------------------------------- replay of comparator counter-models
+
+
+def _num(x):
+    """a model value (int, '3', '7/2', '3.5', '3.5?') as an int when whole, else a float"""
+    from fractions import Fraction
+
+    f = Fraction(str(x).rstrip("?"))
+    return int(f) if f.denominator == 1 else float(f)
 
 
 def replay(ctx, rec: Dict[str, Any]) -> Dict[str, Any]:
@@ -943,7 +955,7 @@ def replay(ctx, rec: Dict[str, Any]) -> Dict[str, Any]:
     evs: Dict[int, Tuple[int, int, int]] = {}
     for pfx in ("p", "q", "r", "a", "b", "e", "z"):
         if f"{pfx}.idx" in m:
-            i, ts, d = int(m[f"{pfx}.idx"]), int(m[f"{pfx}.ts"]), int(m[f"{pfx}.dur"])
+            i, ts, d = int(m[f"{pfx}.idx"]), _num(m[f"{pfx}.ts"]), _num(m[f"{pfx}.dur"])
             evs[i] = (i, ts, d)
     if not evs:
         return {"confirmed": False, "why": "no event model"}
